@@ -188,6 +188,8 @@ type handles struct {
 	lo   map[int]*sdb.Database
 	pool map[int]*sql.DB // shared between goroutines (database/sql is made for that)
 	linked bool          // open the fixed files through their hard links
+	// keys shared by all goroutines of a plan (made anew for every plan)
+	sharedKeys map[int]sqlittle.Key
 }
 
 // name gives the name under which this set of handles opens file f: the
@@ -275,7 +277,13 @@ func runOp(h *handles, o opSpec, yield bool, pattern []bool) string {
 		case "indexed-nocase":
 			err = d.IndexedSelectEq("t", "tc", sqlittle.Key{fmt.Sprintf("ROW%d", o.Arg%11)}, cb, "a", "c")
 		case "indexed-eq":
-			err = d.IndexedSelectEq("t", "tb", sqlittle.Key{int64(o.Arg % 7)}, cb, "a", "b", "c")
+			key := sqlittle.Key{int64(o.Arg % 7)}
+			if h.sharedKeys != nil && o.Arg%2 == 0 {
+				// one Key value used by every goroutine (an input: nobody
+				// writes to it), holding a Go int, which Key accepts
+				key = h.sharedKeys[o.Arg%7]
+			}
+			err = d.IndexedSelectEq("t", "tb", key, cb, "a", "b", "c")
 		case "indexed-wr":
 			err = d.IndexedSelectEq("w", "wv", sqlittle.Key{int64(o.Arg % 5)}, cb, "k", "v")
 		case "pk":
@@ -454,6 +462,10 @@ func run(r *vt.Run, t vt.TB, s spec) {
 	}
 	r.Count("operations-on-fresh-state", nlate)
 
+	sharedKeys := map[int]sqlittle.Key{}
+	for j := 0; j < 7; j++ {
+		sharedKeys[j] = sqlittle.Key{j} // (int, not int64)
+	}
 	old := runtime.GOMAXPROCS(s.Procs)
 	defer runtime.GOMAXPROCS(old)
 	var wg sync.WaitGroup
@@ -477,7 +489,7 @@ func run(r *vt.Run, t vt.TB, s spec) {
 					mu.Unlock()
 				}
 			}()
-			h := &handles{hi: map[int]*sqlittle.DB{}, lo: map[int]*sdb.Database{}, pool: pool, linked: wi%2 == 1}
+			h := &handles{hi: map[int]*sqlittle.DB{}, lo: map[int]*sdb.Database{}, pool: pool, linked: wi%2 == 1, sharedKeys: sharedKeys}
 			defer h.close()
 			<-start
 			for oi, o := range w {
